@@ -479,6 +479,25 @@ def fixed_witness_case(exprs: list[str] | None = None) -> dict:
 	return {'source': '\n'.join(lines), 'members': members}
 
 
+# flat chains of three and more operands over floats that are not exactly representable: the value depends on folding strictly left to
+# right, one operator at a time (seeded C17/13: a '+'-only chain folded with sum(), which compensates rounding errors on CPython >= 3.12)
+FLOAT_CHAINS = ['0.1 + 0.2 + 0.3', '1e16 + 1.0 + 1.0', '0.1 + 0.2 + 0.3 + 0.4', '0.7 + 0.1 + 0.3 - 0.2', '1 + 0.1 + 0.2', '0.1 * 3 + 0.2 + 0.3']
+FLOAT_CHAINS2 = ['0.1 + 0.7 + 0.2 + 1e-9', '1e16 + 1 + 1 + 1.0', '3 + 1e16 + -1e16 + 0.1', '0.3 - 0.1 - 0.1 - 0.1', '0.1 * 0.7 * 0.3', '1.1 + 2.2 + 3.3']
+
+
+def float_chain_case(exprs: list[str]) -> dict:
+	lines = ['from enum import Enum', '', 'class E0(Enum):']
+	members = []
+	for n, e in zip('ABCDEF', exprs):
+		v = eval(e, {'__builtins__': {}}, {})  # noqa: S307
+		lines.append(f'\t{n} = {e}')
+		members.append({'enum': 'E0', 'name': n, 'expr': e, 'planted': e, 'py_error': None, 'features': ['float', 'float_chain_inexact'], 'kind': 'float', 'eval_repr': repr(v)})
+	lines.append('')
+	for n in 'ABCDEF':
+		lines += [f'def get_E0_{n}() -> float:', f'\treturn E0.{n}.value', '']
+	return {'source': '\n'.join(lines), 'members': members}
+
+
 def mixed_enum_case(first: str) -> dict:
 	"""An enum that mixes strings and ints, a string (or an int) first: every member is emitted with the type of its own value."""
 	exprs = [("'s' + 'x'", 'str'), ('100 + 23', 'int'), ('"a" + str(4)', 'str'), ('int("40") + 2', 'int'), ('7 * 6', 'int'), ("'q'", 'str')]
@@ -502,6 +521,8 @@ def shard(ctx: Ctx, acc: Acc) -> None:
 		check_module(acc, fixed_witness_case(FIXED_EXPRS2))
 		check_module(acc, mixed_enum_case('str'))
 		check_module(acc, mixed_enum_case('int'))
+		check_module(acc, float_chain_case(FLOAT_CHAINS))
+		check_module(acc, float_chain_case(FLOAT_CHAINS2))
 	n = N_MODULES[ctx.tier]
 	for i in range(n):
 		if not ctx.mine(i):
